@@ -56,10 +56,11 @@ def punctdel(m, n, quiet, **kw):
     exp = keep if keep else before          # punctuation-only sentences are left alone
     if _toks(out) != exp:
         return "tokens %s, expected %s" % (_toks(out), exp)
-    rep = stubs.SYS.stdout.text()
-    want = "".join("7\t%d\t%s\t%s\n" % (j + 1, t[0], t[1]) for j, t in enumerate(before) if t[0] in PUNCT) if keep else ""
-    if rep != want:
-        return "deleted punctuation reported as %r, expected %r" % (rep, want)
+    # the deleted tokens are written out on stdout, one line each (the exact layout is not pinned by the property)
+    rep = [l for l in stubs.SYS.stdout.text().split("\n") if l.strip() != ""]
+    gone = [t for t in before if t[0] in PUNCT] if keep else []
+    if len(rep) != len(gone) or any(t[0] not in l for t, l in zip(gone, rep)):
+        return "deleted punctuation reported as %r, deleted tokens %r" % (rep, gone)
     return ""
 
 
